@@ -72,7 +72,8 @@ def _resolve_chain(f: FuncInfo, p, e: ast.AST, depth: int = 0) -> ast.AST:
 def rule_eq(repo: Repo) -> RuleResult:
     r = RuleResult("C14.eq", "State.__eq__ compares the same order-free view of facts and of fluents of both operands; result = conjunction",
                    "two states are equal exactly when they contain the same ground facts and the same fluents with the same values")
-    f = L.fn(repo, "State.__eq__")
+    from . import _c10_util as U
+    f = U.deep(repo, "State.__eq__")       # helpers / generator helpers / all(zip(..)) over their views written out in place
     p = L.prov(repo, f)
     me, other = f.params[0], f.params[1]
     roots = {"self": me, f"param:{other}": other}
@@ -165,12 +166,60 @@ def _deep_fresh(eff, s, atom, depth: int, path: str, out: List[str], seen: set):
             _deep_fresh(eff, s, a, depth - 1, path + "[]", out, seen)
 
 
+def _class_methods(repo: Repo, cname: str) -> Set[str]:
+    """the (non-special) methods of a class: a copy method that configures the new object through setters of its own class is analysed
+    with those setters in place"""
+    return {m for c in repo.mro(cname) if c in repo.classes for m in repo.classes[c].methods
+            if not (m.startswith("__") and m.endswith("__")) and m != "copy"}
+
+
+def _field_sources(repo: Repo, m: FuncInfo, ctor: ast.Call, cname: str) -> Dict[str, List[ast.AST]]:
+    """constructor field map plus assignments `alias.fld = e` after the construction, where alias is the variable holding the new object
+    or a plain copy of it (the receiver binding of a setter analysed in place)"""
+    src = {k: list(v) for k, v in F.constructed_field_sources(repo, m, ctor, cname).items()}
+    var = None
+    for n in ast.walk(m.node):
+        if isinstance(n, (ast.Assign, ast.AnnAssign)) and n.value is ctor:
+            tgts = n.targets if isinstance(n, ast.Assign) else [n.target]
+            if len(tgts) == 1 and isinstance(tgts[0], ast.Name):
+                var = tgts[0].id
+    if var:
+        al = L.aliases(m, {var})
+        for n in ast.walk(m.node):
+            if isinstance(n, ast.Assign):
+                for t in n.targets:
+                    if isinstance(t, ast.Attribute) and isinstance(t.value, ast.Name) and t.value.id in al and not any(n.value is x for x in src.get(t.attr, [])):
+                        src.setdefault(t.attr, []).append(n.value)
+    return src
+
+
+def _copy_summary(repo: Repo, eff, f: FuncInfo):
+    """the effect summary of State.copy.  The effect analysis reads the flattened function; when the copy is written with generator
+    helpers / dict(zip(..)) / dict(<generator>) the summary is recomputed (same analysis, same callee summaries) on the function
+    in which those forms are written as the comprehensions they stand for."""
+    from . import _c10_util as U
+    from ..effects import Summary, _Analyzer
+    d = U.deep_of(repo, f)
+    s0 = eff.sums[f.qn]
+    if d is s0.f or d.node is s0.f.node or getattr(d, "deep_of", None) is None:
+        return s0
+    s = Summary(d)
+    for _ in range(12):
+        a = _Analyzer(eff, s)
+        a.run()
+        if not a.changed:
+            break
+    return s
+
+
 def rule_copy(repo: Repo, rid: str = "C14.copy") -> RuleResult:
     r = RuleResult(rid, "State.copy returns fresh containers with fresh element objects; element copies carry every declared field",
                    "a copy of a state is equal to the original and independent of it")
+    from . import _c10_util as U
     eff = effects(repo)
     f = repo.func("State.copy")
-    s = eff.sums[f.qn]
+    s = _copy_summary(repo, eff, f)
+    f = s.f
     r.site(f.qn + " [result object]")
     if not s.ret or any(a[0][0] != "fresh" for a in s.ret):
         r.fail(Finding(rid, f, "returns-alias", f"State.copy may return {sorted(fmt_atom(a) for a in s.ret)} (not a new State)"))
@@ -206,14 +255,14 @@ def rule_copy(repo: Repo, rid: str = "C14.copy") -> RuleResult:
     for cname, required, excluded in (
             ("GroundedPredicate", {"name", "signature", "object_mapping", "is_positive"}, {"is_masked": "learner-side flag, not part of a PDDL fact"}),
             ("PDDLFunction", {"name", "signature", "repeating_variables", "stored_value"}, {})):
-        m = L.fn(repo, f"{cname}.copy")
+        m = U.deep(repo, f"{cname}.copy", also=_class_methods(repo, cname))
         p = L.prov(repo, m)
         ctors = [c for c in L.calls_in(m.node) if isinstance(c.func, ast.Name) and c.func.id == cname]
         r.site(m.qn)
         if not ctors:
             r.fail(Finding(rid, m, "no-constructor", f"{cname}.copy does not construct a new {cname}"))
             continue
-        src = F.constructed_field_sources(repo, m, ctors[0], cname)
+        src = _field_sources(repo, m, ctors[0], cname)
         missing = []
         for fld in sorted(required):
             names = {f"attr:{fld}"} | ({"attr:value"} if fld == "stored_value" else set())
@@ -255,7 +304,8 @@ def rule_copy(repo: Repo, rid: str = "C14.copy") -> RuleResult:
 
 def rule_serialize(repo: Repo, rid: str = "C14.serialize") -> RuleResult:
     r = RuleResult(rid, "State.serialize depends on state_predicates, state_fluents and is_init", "equal states serialise alike; the label distinguishes the initial state")
-    f = L.fn(repo, "State.serialize")
+    from . import _c10_util as U
+    f = U.deep(repo, "State.serialize")
     got = F.slice_fields(repo, f, f.self_name, "State")
     r.site(f.qn)
     need = {"state_predicates", "state_fluents", "is_init"}
@@ -264,7 +314,7 @@ def rule_serialize(repo: Repo, rid: str = "C14.serialize") -> RuleResult:
     else:
         r.fail(Finding(rid, f, f"field-not-serialised:{'/'.join(sorted(need - got))}", f"serialize() does not depend on {sorted(need - got)}"))
     # the element views used by serialize are the ones __eq__ compares
-    e = L.fn(repo, "State.__eq__")
+    e = U.deep(repo, "State.__eq__")
     ser_views = set()
     for fn in (f,):
         for n in ast.walk(fn.node):
